@@ -118,7 +118,15 @@ def exp (impl : String) : P Verdict := do
   let model := ",".intercalate (outs.map showOut)
   let tags := runTags { cap := cap } os
   let tag := "exp-" ++ (if tags.contains "store:expired" then "expired" else "live")
-  pure { modelEq := impl == model, specOk := none, tag := tag, model := model, spec := "-" }
+  -- the statement speaks of segments up to 10 minutes apart and knows no entry lifetime: whenever nothing
+  -- is evicted the outputs are judged by the abstract per-endpoint tracker, expiry or not
+  let implOuts := (impl.splitOn ",").map parseOut
+  if distinctKeys os > cap || implOuts.any Option.isNone then
+    pure { modelEq := impl == model, specOk := none, tag := tag ++ ":evict", model := model, spec := "-" }
+  else
+    let (ok, kf) := judge [] os (implOuts.filterMap id)
+    pure { modelEq := impl == model, specOk := some ok, kf := if ok then [] else kf.eraseDups, tag := tag,
+           model := model, spec := if ok then "holds" else "EstOk-fails" }
 
 def handlers : List (String × (String → P Verdict)) :=
   [("C19.seq", seq), ("C19.pkts", pkts), ("C19.exp", exp)]
